@@ -34,6 +34,6 @@ Section MetaObject.
   (* names used by the other C03 files: a configuration with grids, keepHills, well-tempered, newHillFrequency 2,
      gridsUpdateFrequency 1 (non-vacuity example), and the three flags *)
   Definition meta_example_cfg (one two temp : T) : @cfg T :=
-    mkCfg [] [] one two 2 1 true true true temp one false false 0 (fun _ => one).
+    mkCfg [] [] [] one two 2 1 true true true temp one false false 0 (fun _ => one).
   Definition meta_flags (c : @cfg T) : bool * bool * bool := (c_use_grids c, c_keep c, c_wt c).
 End MetaObject.
